@@ -40,6 +40,8 @@ type c11Env struct {
 	vids map[int]string // version IDs of the objects named by sizes >= c11Ver
 	st   *backends.Stack
 	have map[int]bool
+	// ifRangeN counts the checks (every fifth one is repeated with If-Range validators)
+	ifRangeN int
 }
 
 func newC11Env(k backends.Kind) *c11Env {
@@ -183,6 +185,28 @@ func c11Check(e *c11Env, size int, header string) (ds []disc, outcome string, cl
 		}
 	default:
 		fail("other-failure", "status %d body %q", r.Status, trunc(r.Body, 120))
+	}
+	// The same request with an If-Range validator that matches the object (its ETag, or its
+	// Last-Modified date): the condition holds, so the range is in force exactly as without it.
+	e.ifRangeN++
+	if header != "" && len(ds) == 0 && e.ifRangeN%5 == 0 && (r.Status == 200 || r.Status == 206 || r.Status == 416) {
+		h := s3x.Do(e.st.Handler, &s3x.Req{Method: "HEAD", Path: "/bk0/" + key, Query: q})
+		for _, val := range []string{h.Header.Get("ETag"), h.Header.Get("Last-Modified")} {
+			if val == "" {
+				continue
+			}
+			r2 := s3x.Do(e.st.Handler, &s3x.Req{Method: "GET", Path: "/bk0/" + key, Query: q, Header: s3x.H("Range", header, "If-Range", val)})
+			cl2, _ := r2.ContentLength()
+			out1, out2 := outcome, fmt.Sprintf("%d|%s|%v|%s", r2.Status, md5hex(r2.Body), cl2, r2.Header.Get("Content-Range"))
+			if r.Status >= 400 || r2.Status >= 400 {
+				// error documents may carry request IDs: compare status and code
+				out1, out2 = fmt.Sprintf("%d %s", r.Status, r.ErrCode()), fmt.Sprintf("%d %s", r2.Status, r2.ErrCode())
+			}
+			if out2 != out1 {
+				fail("if-range", "with If-Range %q, a validator of the object itself, the answer is %s; without it %s (status|md5|length|Content-Range)", val, out2, out1)
+				break
+			}
+		}
 	}
 	return ds, outcome, class
 }
